@@ -67,6 +67,16 @@ def _work(units):
     acc = progcheck.Acc()
     res = {}
     for u in units:
+        if u[0] == "seam":
+            # the position is GIVEN (first 32 digest bits substituted): every vector's group must contain it
+            from .. import seam
+            from . import c03
+
+            n0 = len(acc.viol)
+            c03.check_vector(acc, u[1], 6, 0, seam.HashSeam())
+            for v in acc.viol[n0:]:
+                v["kind"] = "pos:seam-" + v["kind"]
+            continue
         if u[0] == "vec":
             _, v, ids, labels = u
             ob = observe(acc, v, ids, labels)
@@ -101,6 +111,9 @@ def run(res, tier):
     vs += [(v, None) for v in _c03.special_vectors()]  # weights with >= 7 significant digits / tiny multi-digit decimals
     vs += [(["1", "2", "3"], ["zeta", "alpha", "mid"]), (["1", "2", "3"], [3, 1.5, "g"]), (["1", "9"], ["B", "A"])]
     units = [("vec", v, ids, labels) for v, labels in vs]
+    seam_vs = _c03.special_vectors() + [[str(t), str(10 - t)] for t in range(0, 11)] + [["100.0", "100.0004"], ["100.0004", "100.0006"], ["0.1234567", "0.7654321"],
+                                                                                       ["1000000.5", "1000000.25", "3.000001"]]
+    units += [("seam", v) for v in seam_vs]
     merged = {}
     for w in pmap(_work, permuted(units, "c10"), chunk=12):
         pos = w.pop("pos")
@@ -214,9 +227,17 @@ def branches_consistent(res, ast, ev, u):
 def replay(data):
     from ..common import dec
 
-    u = dec(data["id"])
     acc = progcheck.Acc()
     k = data["kind"]
+    if k.startswith("pos:seam-"):
+        from . import c03
+
+        return c03.replay(dict(data, kind=k[len("pos:seam-"):]))
+    u = dec(data["id"])
+    if k.startswith("pos:seam-"):
+        from . import c03
+
+        return c03.replay(dict(data, kind=k[len("pos:seam-"):]))
     if k in ("pos:inconsistent", "pos:not-published", "pos:ramp"):
         lo, hi = Fraction(-1), Fraction(2)
         gs = []
